@@ -465,6 +465,48 @@ Fixpoint ev_calls_bound (evs : list conn_event) : nat :=
   | _ :: r => ev_calls_bound r
   end.
 
+(** Specification of the server for ANY event list: accept errors, QUIC time-outs, shutdown
+    requests and calls of other tasks included.  Connections are answered from the reference
+    counters alone as long as the listener has not been asked to stop and has not seen more
+    than [fail_threshold] accept errors in a row ([f] counts them); from then on everybody is
+    refused.  The second component is how the loop has ended ([Running]: not at all). *)
+Definition is_conn (e : conn_event) : bool := match e with Conn _ _ _ => true | _ => false end.
+Definition refused_all (evs : list conn_event) : list conn_result :=
+  map (fun _ => Refused) (filter is_conn evs).
+
+Fixpoint spec_events (sc : sconfig) (p : qstate * qstate) (f : N) (evs : list conn_event) : list conn_result * lstatus :=
+  match evs with
+  | [] => ([], Running)
+  | Shutdown :: r => (refused_all r, ReturnedOk)
+  | AcceptErr :: r => if fail_threshold <? f + 1 then (refused_all r, ReturnedErr) else spec_events sc p (f + 1) r
+  | AcceptTimeout :: r => spec_events sc p f r
+  | Other on_host a t :: r =>
+      if on_host
+      then spec_events sc (after_host (shared sc) (fst (qstep (host_cfg sc) (snd p) a t)) p) f r
+      else spec_events sc (after_pre (shared sc) (fst (qstep (pre_cfg sc) (fst p) a t)) p) f r
+  | Conn a t reqs :: r =>
+      let (q1, d) := qstep (pre_cfg sc) (fst p) a t in
+      let p1 := after_pre (shared sc) q1 p in
+      match d with
+      | Drop => let (os, st) := spec_events sc p1 0 r in (Served [] true :: os, st)
+      | _ => let '(p2, l, c) := spec_requests sc p1 a reqs in
+             let (os, st) := spec_events sc p2 0 r in (Served l c :: os, st)
+      end
+  end.
+Definition spec_server_events (sc : sconfig) (t0 : N) (evs : list conn_event) : list conn_result * lstatus :=
+  spec_events sc (qinit t0, qinit t0) 0 evs.
+
+(** Calls of [register] with address [b] that an event list can cause (on either manager), and the
+    smaller of the two configured maxima. *)
+Fixpoint ev_calls_of (b : N) (evs : list conn_event) : N :=
+  match evs with
+  | [] => 0
+  | Conn a _ reqs :: r => (if a =? b then 1 + N.of_nat (length reqs) else 0) + ev_calls_of b r
+  | Other _ a _ :: r => (if a =? b then 1 else 0) + ev_calls_of b r
+  | _ :: r => ev_calls_of b r
+  end.
+Definition min_max (sc : sconfig) : N := N.min (max_requests (pre_cfg sc)) (max_requests (host_cfg sc)).
+
 (** ------------------------------------------------------------------------------------
     xval interface.
     config  : (L (N max) (N check_every) (L (N kind) (N v)))   kind 0: reset after v clock units,
@@ -652,6 +694,46 @@ Definition run_server_spec (x : xval) : xval :=
   | _ => bad_input
   end.
 
+(** server with events:  (L checked sconf (L ev ...)),  ev = conn (as above)
+      | (L (N 200) (N n))  the next n calls of accept() fail
+      | (L (N 201))        shutdown request *)
+Inductive sev : Type := SConn (c : N * N * nat * nat) | SErrs (n : nat) | SShut.
+Definition d_sev (x : xval) : option sev :=
+  match x with
+  | XL [XN 200; XN n] => Some (SErrs (N.to_nat n))
+  | XL [XN 201] => Some SShut
+  | _ => match d_conn x with Some c => Some (SConn c) | None => None end
+  end.
+Fixpoint abs_sevs (now : N) (l : list sev) : list conn_event :=
+  match l with
+  | [] => []
+  | SConn (a, dt, n, k) :: r => repeat (Conn a (now + dt) (repeat (now + dt) n)) k ++ abs_sevs (now + dt) r
+  | SErrs n :: r => repeat AcceptErr n ++ abs_sevs now r
+  | SShut :: r => Shutdown :: abs_sevs now r
+  end.
+Definition run_server_ev (x : xval) : xval :=
+  match x with
+  | XL [c; cf; h] =>
+      match d_bool c, d_sconfig cf, d_list d_sev h with
+      | Some checked, Some sc, Some es =>
+          let (os, al) := accept_loop checked sc 0 (abs_sevs 0 es) in
+          XL [XL (map x_conn_result os); x_bool (running al)]
+      | _, _, _ => bad_input
+      end
+  | _ => bad_input
+  end.
+Definition run_server_ev_spec (x : xval) : xval :=
+  match x with
+  | XL [c; cf; h] =>
+      match d_bool c, d_sconfig cf, d_list d_sev h with
+      | Some _, Some sc, Some es =>
+          let (os, al) := spec_server_events sc 0 (abs_sevs 0 es) in
+          XL [XL (map x_conn_result os); x_bool (running al)]
+      | _, _, _ => bad_input
+      end
+  | _ => bad_input
+  end.
+
 Definition limiter_table : list (bytes * (xval -> xval)) :=
   [ (B "limiter.register", run_register);
     (B "limiter.reference", run_reference);
@@ -659,4 +741,6 @@ Definition limiter_table : list (bytes * (xval -> xval)) :=
     (B "limiter.ops_reference", run_ops_reference);
     (B "limiter.server", run_server);
     (B "limiter.server_063", run_server_063);
-    (B "limiter.server_spec", run_server_spec) ].
+    (B "limiter.server_spec", run_server_spec);
+    (B "limiter.server_ev", run_server_ev);
+    (B "limiter.server_ev_spec", run_server_ev_spec) ].
